@@ -128,3 +128,82 @@ func returnsOf(fn *ssa.Function) []*ssa.Return {
 	}
 	return out
 }
+
+// checkWriteErrorDiscipline: in every module function that calls WriteAt on
+// a storage file, the error of one WriteAt is tested (or returned) before
+// the next WriteAt or a return: a failed section write must not be
+// overwritten by a later successful one.
+func checkWriteErrorDiscipline(c *kit.Ctx, k *keyer, rule string) {
+	writeAt := c.FuncObj("io", "WriterAt.WriteAt")
+	osWriteAt := c.FuncObj("os", "(*File).WriteAt")
+	isWrite := func(ins ssa.Instruction) bool {
+		_, isCall := ins.(*ssa.Call)
+		return isCall && kit.CallsAny(ins, writeAt, osWriteAt)
+	}
+	n := 0
+	for _, fn := range c.ModuleFunctions() {
+		has := false
+		kit.Instrs(fn, func(ins ssa.Instruction) {
+			if isWrite(ins) {
+				has = true
+			}
+		})
+		if !has {
+			continue
+		}
+		isWriteErr := func(e *kit.Expr) bool {
+			if e.Kind != "extract" || e.Idx != 1 {
+				return false
+			}
+			call, ok := e.Args[0].V.(*ssa.Call)
+			return ok && isWrite(call)
+		}
+		fl := (&kit.Flow{P: c.Prog, Fn: fn, Entry: true,
+			Edge: func(a kit.Atom) bool { return a.IsNilCmp(true, isWriteErr) },
+			Instr: func(ins ssa.Instruction, in bool) bool {
+				if isWrite(ins) {
+					return false
+				}
+				return in
+			}}).Solve()
+		kit.Instrs(fn, func(ins ssa.Instruction) {
+			if !isWrite(ins) {
+				return
+			}
+			n++
+			c.Check(fl.Before(ins), rule, k.key(fn, "WriteAt after unchecked WriteAt"), posOf(ins),
+				"no earlier WriteAt error is pending when this WriteAt executes", "a WriteAt can execute while the error of an earlier WriteAt has not been tested: a failed section write is overwritten by the next one and the piece is reported as written")
+		})
+		var mentions func(v ssa.Value, depth int) bool
+		mentions = func(v ssa.Value, depth int) bool {
+			if depth > 4 {
+				return false
+			}
+			if isWriteErr(kit.Canon(v)) {
+				return true
+			}
+			if phi, ok := v.(*ssa.Phi); ok {
+				for _, e := range phi.Edges {
+					if mentions(e, depth+1) {
+						return true
+					}
+				}
+			}
+			return false
+		}
+		for _, r := range returnsOf(fn) {
+			if fl.Before(r) {
+				continue
+			}
+			ok := false
+			for _, res := range r.Results {
+				if types.Identical(res.Type(), types.Universe.Lookup("error").Type()) && mentions(res, 0) {
+					ok = true
+				}
+			}
+			c.Check(ok, rule, k.key(fn, "return with pending write error"), posOf(r),
+				"a return reached with an untested WriteAt error returns that error", "a return is reachable with a WriteAt error neither tested nor returned")
+		}
+	}
+	c.Floor(rule, "WriteAt sites examined for error discipline", n, 1)
+}
